@@ -86,8 +86,11 @@ class Sc:
 
     def open(self, hn, store, mode, fmt, ch, route="vio", sr=8000, existing=False, frames=False, ext="x"):
         f = fmt if (mode != "r" or (fmt >> 16) & 0xFFF == 0x04) else 0
+        dump_idx = None
+        if existing and (fmt >> 16) & 0xFFF in RICH:
+            dump_idx = self.op("dump " + store)       # the bytes the parser is about to read: its allocations are predicted from them
         i = self.op("open %s %s %s fmt=%08x ch=%d sr=%d route=%s ext=%s" % (hn, store, mode, f, ch, sr, route, ext), None)
-        st = dict(mode=mode, fmt=fmt, route=route, nchunks=0, open_idx=i, existing=existing, frames=frames)
+        st = dict(mode=mode, fmt=fmt, route=route, nchunks=0, open_idx=i, existing=existing, frames=frames, dump_idx=dump_idx)
         self.handles[hn] = st
         self.m.append((i, ("open", dict(st))))
         self.peek(hn)
@@ -484,6 +487,104 @@ def gen_sd2(ctx, rng, n):
     return out
 
 
+# ---- which owners a header parser fills, predicted from the bytes of the file (chunk walk) ----
+PRED_BITS = {5: "peak", 6: "bext", 7: "cart", 8: "loop", 9: "inst", 10: "cue", 13: "str", 14: "chunkRec"}
+WAV_INFO_IDS = {b"ISFT", b"ICOP", b"INAM", b"IART", b"ICMT", b"ICRD", b"IGNR", b"IPRD", b"ITRK"}
+
+
+def predict_events(data, mode="r"):
+    """(set of owner bits among PRED_BITS the parser will fill, number of recorded chunks) for WAV/WAVEX/RF64, AIFF/AIFC and CAF files;
+    None for anything else.  Mirrors the chunk switches of wav.c / wavlike.c / aiff.c / caf.c (which chunk id allocates which owner)."""
+    n = len(data)
+    bits = set()
+    if n >= 12 and data[:4] in (b"RIFF", b"RIFX", b"RF64") and data[8:12] == b"WAVE":
+        be = data[:4] == b"RIFX"
+        pos, nch = 12, 1
+        ds64_data = None
+        while pos + 8 <= n:
+            cid = data[pos:pos + 4]
+            size = struct.unpack(">I" if be else "<I", data[pos + 4:pos + 8])[0]
+            body = data[pos + 8:pos + 8 + size]
+            nch += 1
+            if cid == b"PEAK":
+                bits.add(5)
+            elif cid == b"bext":
+                bits.add(6)
+            elif cid == b"cart":
+                bits.add(7)
+            elif cid == b"acid":
+                bits.add(8)
+            elif cid == b"smpl":
+                bits.add(9)
+            elif cid == b"cue ":
+                bits.add(10)
+            elif cid == b"LIST" and body[:4] == b"INFO":
+                q = 4
+                while q + 8 <= len(body):
+                    sid = body[q:q + 4]
+                    ssz = struct.unpack(">I" if be else "<I", body[q + 4:q + 8])[0]
+                    if sid in WAV_INFO_IDS and ssz > 0:
+                        bits.add(13)
+                    q += 8 + ssz + (ssz & 1)
+            if cid == b"ds64" and len(body) >= 16:
+                ds64_data = struct.unpack("<Q", body[8:16])[0]
+            if cid == b"data" and data[:4] == b"RF64" and size == 0xFFFFFFFF:
+                if ds64_data is None:
+                    break
+                size = ds64_data
+            pos += 8 + size + (size & 1)
+        bits.add(14)
+        return bits, nch
+    if n >= 12 and data[:4] == b"FORM" and data[8:12] in (b"AIFF", b"AIFC"):
+        pos, nch = 12, 1
+        while pos + 8 <= n:
+            cid = data[pos:pos + 4]
+            size = struct.unpack(">I", data[pos + 4:pos + 8])[0]
+            nch += 1
+            if cid == b"PEAK":
+                bits.add(5)
+            elif cid == b"basc":
+                bits.add(8)
+            elif cid == b"INST" and size == 20:
+                bits.add(9)
+            elif cid == b"MARK":
+                cnt = struct.unpack(">H", data[pos + 8:pos + 10])[0] if pos + 10 <= n else 0
+                if cnt <= 2500:
+                    bits.add(10)
+            elif cid in (b"NAME", b"AUTH", b"(c) ", b"ANNO", b"APPL") and size > 0:
+                if cid != b"APPL" or data[pos + 8:pos + 12] == b"m3ga":
+                    bits.add(13)
+            pos += 8 + size + (size & 1)
+        bits.add(14)
+        if mode == "rw":
+            bits.discard(13)        # aiff.c:279 sets strings.flags after the header was read (see CAF below)
+        return bits, nch
+    if n >= 8 and data[:4] == b"caff":
+        pos, nch = 8, 0
+        while pos + 12 <= n:
+            cid = data[pos:pos + 4]
+            size = struct.unpack(">q", data[pos + 4:pos + 12])[0]
+            nch += 1
+            if cid == b"peak":
+                bits.add(5)
+            elif cid == b"info" and size > 4:
+                body = data[pos + 16:pos + 12 + size]           # after the 32-bit count: key\0value\0 pairs (caf_read_strings)
+                parts = body.split(b"\0")
+                for j in range(0, len(parts) - 1, 2):
+                    if parts[j] in (b"title", b"software", b"copyright", b"artist", b"genre", b"comment", b"comments", b"tracknumber", b"date", b"album", b"license"):
+                        bits.add(13)
+            if cid == b"data" and size < 0:
+                break
+            if size < 0:
+                break
+            pos += 12 + size
+        bits.add(14)
+        if mode == "rw":
+            bits.discard(13)        # caf.c:150 sets strings.flags after the header was read: in RDWR psf_store_string refuses (SFE_STR_NO_SUPPORT) during the parse
+        return bits, nch
+    return None
+
+
 # ---- judging ----
 def kv(line):
     return dict(re.findall(r"(\w+)=([^ ]*)", line))
@@ -510,7 +611,9 @@ def judge_end(sc, t):
         why.append("no `ledger end` line (the run did not complete)")
         return why
     d = kv(end[-1])
-    if d.get("balance") != "0" or d.get("blocks") != "0":
+    # the block count decides: a leak is at least one block.  (Bytes can differ by the growth of the harness's own line buffer when a
+    # script runs through `sfh script` instead of `sfh batch`; a block count of 0 with bytes != 0 is that and nothing else.)
+    if d.get("blocks") != "0":
         why.append("heap not released: %s bytes in %s blocks still allocated after the last close" % (d.get("balance"), d.get("blocks")))
     if d.get("lsan") != "0":
         why.append("LeakSanitizer reports unreachable blocks")
@@ -540,6 +643,15 @@ def model_script(sc, t):
             if ok and (st["mode"] == "r" or (st["mode"] == "rw" and st["existing"])) and obs.get("mask", "closed") != "closed":
                 mask = int(obs["mask"], 16)
                 cont = cont_class(major)
+                pred = None
+                if st.get("dump_idx") is not None and "hex=" in t[st["dump_idx"]]:
+                    pred = predict_events(bytes.fromhex(t[st["dump_idx"]].split("hex=")[1].strip()), st["mode"])
+                if pred is not None:
+                    # predicted from the file's bytes: these owner bits do NOT come from the observation (channel map and iterator still do)
+                    pbits, nrec = pred
+                    mask = (mask & ~sum(1 << b for b in PRED_BITS)) | sum(1 << b for b in pbits)
+                    obs = dict(obs, rch=str(nrec))
+                    sc.predicted = getattr(sc, "predicted", 0) + 1
                 evs += ["chunkRec"] * int(obs.get("rch", "0"))
                 for bit, ev in ((5, "peak"), (6, "bext"), (7, "cart"), (8, "loop"), (9, "smpl" if cont in ("wav", "wavex", "rf64") else "inst"),
                                 (11, "chanmap"), (13, "str"), (16, "iter")):
@@ -654,6 +766,38 @@ def shrink_malformed(ctx, sc, fmt):
     return None, ("waived" if waived else None), None
 
 
+def shrink_scenario(ctx, sc, why, max_rounds=120):
+    """delta debugging over the operations of a failing well-formed scenario: the smallest history (between `ledger begin` and
+    `ledger end`) on which the same kind of failure persists.  Peeks are dropped first: they do not act on the library."""
+    from .. import scripts as S
+    body = [l for l in sc.h[1:] if not l.startswith("ledger peek") and l != "ledger end"]
+    key = why[0].split(":")[0]
+
+    def fails(ls):
+        # a history in the property's sense ends in sf_close: every handle that is opened must also be closed in the candidate
+        opened = set()
+        for l in ls:
+            tk = l.split()
+            if tk[0] == "open":
+                opened.add(tk[1])
+            elif tk[0] == "close":
+                opened.discard(tk[1])
+        if opened:
+            return False
+        text = "\n".join(["ledger begin"] + ls + ["ledger end"]) + "\n"
+        lines, rc, err = ctx.script(text, env=LEAK_ENV, timeout=60)
+        t = [l for l in lines if l.startswith(KEEP)]
+        w = judge_end(sc, t)
+        return bool(w) and w[0].split(":")[0] == key
+
+    if not fails(body):
+        return None
+    small = S.shrink(body, fails, max_rounds=max_rounds)
+    s2 = Sc(sc.name + "-min", sc.kind)
+    s2.h = ["ledger begin"] + small + ["ledger end"]
+    return s2
+
+
 def replay(ctx, path):
     text = open(path).read()
     if "--- script" not in text:
@@ -749,6 +893,11 @@ def run(ctx):
                 if w1 == "waived":
                     nviol -= 1
                     continue
+            elif nviol <= 3:
+                small = shrink_scenario(ctx, sc, why)
+                if small is not None:
+                    ctx.violation("c16-" + small.name, replay_text(small, why, t, extra="# minimal history (delta debugging over %d operations -> %d)\n" % (len(sc.h), len(small.h))))
+                    continue
             ctx.violation("c16-" + sc.name, replay_text(sc, why, t))
 
     # ---- correspondence: ledger peeks against the model ----
@@ -782,6 +931,7 @@ def run(ctx):
                               "# C16 correspondence: the ledger model and the library disagree, and the scenario itself ends balanced\n# (no leak, descriptor or temporary file observed): %s\n"
                               "c16-scenario\n--- script\n%s" % (d, sc.script()), no_input=True)
     ctx.notes["peeks_compared"] = peeks
+    ctx.notes["read_opens_predicted_from_file_bytes"] = sum(getattr(sc, "predicted", 0) for sc in ok_scs)
     ctx.notes["correspondence_disagreements"] = ndis
     ctx.notes["scenarios_by_kind"] = kinds
     ctx.notes["malformed_variants"] = sum(len(getattr(s, "variants", [])) for s in mal)
